@@ -330,9 +330,15 @@ def action_sites(F, f, action):
     return []
 
 
+def _vocab(p):
+    """kind of outcome name: boolean, comparison region, or match arms -- a test rewritten from one kind to another
+    (map_or(false, ..) -> match) is not comparable, an inverted test stays within its kind"""
+    return 'b' if p in ('T', 'F') else ('c' if p in ('eq', 'ne', 'lt', 'le', 'gt', 'ge') else 'v')
+
+
 def _terms_included(want, got):
     """multiset inclusion of controlling terms; a term is 'atoms@outcome' -- equal atoms match when the outcomes are equal
-    or one side has none (an outcome the analysis could not name claims nothing)"""
+    or one side has none (an outcome the analysis could not name claims nothing) or they are of different kinds"""
     rest = list(got)
     pending = []
     for w in want:
@@ -345,7 +351,7 @@ def _terms_included(want, got):
         hit = None
         for g in rest:
             ga, _, gp = g.partition('@')
-            if ga == wa and (not wp or not gp):
+            if ga == wa and (not wp or not gp or _vocab(wp) != _vocab(gp)):
                 hit = g
                 break
         if hit is None:
